@@ -13,7 +13,14 @@ prescribes on that state:
   * every other structurally valid transaction: must be answered with an error, and the following
     full-range read must show the unchanged state;
   * point and range reads: kvs in key order, more, count, header revision — on bounds (incl. empty,
-    inverted, from-key), limits, count_only, explicit revisions <= the committed one;
+    inverted, from-key, and bounds of the form key+\x00: the continue key of a paginated list, the end of a
+    single-key range — judged on RAW keys), limits, count_only (also at an explicit revision: the count of
+    THAT revision), explicit revisions <= the committed one; a read below the compaction floor (`bcompact`)
+    must be refused, not answered;
+  * a write without a value (create / update shape with an empty put value): refused with an error on every
+    engine alike, nothing written, no revision consumed;
+  * a watch-create in range-stream shape (negative start revision) without key or range_end: cancelled at
+    once, and the process survives (multi-region tikv);
   * prefix watches: the PUT / DELETE events (key, value, mod revision, previous key-value on deletes)
     of the acknowledged writes from the start revision on, in revision order;
   * scripted backend answers (`inject …` lines: the next backend write call of the real RPCServer is
@@ -28,6 +35,8 @@ from ..gen import KEY_POOL, PREFIX, VALUES, hx, rng_for
 
 INIT = hist.INIT
 ENGINES = ["memkv", "badger", "tikv"]
+# range bounds of the form key+\x00: order facts (KB.Props.C10) lifted to the range read
+EXTRA_PROP_MODULES = [("KB.Props.C03Bounds", "KB.C03Bounds")]
 MAGIC = 1888
 COMPACT_KEY = b"compact_rev_key"
 
@@ -567,6 +576,8 @@ def oracle(case, tolerated=()):
     last_call = None        # (line index, expected `injected` text) of the last intercepted call
     claim = None            # (key, header, line index): an injected delete answered Succeeded=true (consistent scripts only)
     parked = {}             # cid -> (transaction, key-values of the reference when it started): real races (start / step)
+    floor = 0               # compaction floor raised by `bcompact` lines
+    frozen = None           # (line index, committed revision) after a refused empty-value write: the next `rev` must show it unchanged
 
     def hit(i, desc, sig):
         hits.append((i, "line %d: %s -> %s: %s" % (i + 1, case.lines[i][:200], case.impl[i][:300], desc), sig))
@@ -582,7 +593,17 @@ def oracle(case, tolerated=()):
         if t[0] == "rev":
             o = out.split()
             if len(o) == 2 and o[1].isdigit():
+                if frozen is not None and int(o[1]) != frozen[1]:
+                    hit(i, "the write without a value of line %d was refused, yet it consumed a revision: the committed revision went from %d to %s "
+                           "(a refused request must change nothing; on the other engines the same request consumes none)" % (frozen[0] + 1, frozen[1], o[1]),
+                        "txn-empty-value-consumed-revision")
+                    break
+                frozen = None
                 committed = int(o[1])
+        elif t[0] == "bcompact":
+            o = out.split()
+            if len(o) == 2 and o[1].isdigit():
+                floor = max(floor, int(o[1]))
         elif t[0] in ("start", "step"):
             if t[0] == "start" and len(t) > 2 and t[2] == "txn":
                 parked[t[1]] = (parse_txn_line(line), dict(ref.kv))
@@ -641,6 +662,16 @@ def oracle(case, tolerated=()):
                     hit(i, "a transaction outside the supported shapes was executed instead of being rejected", near_miss_category(tx))
                     break
                 continue
+            if shp[0] in ("create", "update") and not tx["then"][0]["val"]:
+                # a write WITHOUT A VALUE: refused by backend.Create / Update before a revision is dealt, on every engine
+                # alike (TiKV cannot store it; on the other engines the key would read as absent in point reads while range
+                # reads list it). The reference is not advanced: every later read must show the store unchanged.
+                if res[0] != "err":
+                    hit(i, "a write without a value was accepted (%s): it must be refused on every engine alike — the key then reads as absent "
+                           "in point reads while range reads list it (TiKV refuses the same request)" % (out[:120],), "txn-empty-value-accepted")
+                    break
+                frozen = (i, max(ref.rev, committed))
+                continue
             exp = ref.eval_txn(tx)
             if res[0] == "err" and res[1] == "drift" and tx["cmp"] and tx["cmp"][0]["arg"] >= max(ref.rev, committed) + 1:
                 continue        # an expectation at or above the next revision: refused with a drift error (shim_sound: "error or etcd's answer")
@@ -675,15 +706,26 @@ def oracle(case, tolerated=()):
             plain = not (set(flags) & set("k")) and not any(k in opts for k in ("sort", "minmod", "maxmod", "mincreate", "maxcreate"))
             R = committed if rev <= 0 else rev
             in_domain = plain and key and R <= committed and not (end and rev == MAGIC) and \
-                not ("c" in flags and rev != 0) and not ("c" in flags and not end)
+                not ("c" in flags and rev < 0) and not ("c" in flags and not end)
             o = out.split()
+            compacted = in_domain and rev > 0 and R < floor
             if len(o) >= 3 and o[1] == "err":
                 refusal = o[2] == "invalid" and end and (key >= end or end == b"\x00")
+                if compacted and o[2] == "belowfloor":
+                    continue        # etcd: ErrCompacted
                 if in_domain and not refusal:
                     hit(i, "a read in the domain was answered with an error", "range-error")
                     break
                 continue
             if not in_domain:
+                continue
+            if compacted and end:
+                # (a point read below the floor is C08's subject; ranges and counts are refused there)
+                sig = "range-count-compacted-revision-served" if "c" in flags else "range-compacted-revision-served"
+                hit(i, "revision %d is below the compaction floor %d: etcd answers ErrCompacted and the same range without count_only is refused, "
+                       "but this read was answered with data" % (R, floor), sig)
+                break
+            if compacted:
                 continue
             f = dict(x.split("=", 1) for x in o[1:])
             got_kvs, got_count, got_more, got_hdr = parse_kvs(f["kvs"]), int(f["count"]), f["more"] == "1", int(f["hdr"])
@@ -707,14 +749,25 @@ def oracle(case, tolerated=()):
                 sig = "range-count-limited" if got_more else "range-count"
                 if "c" in flags and (end == b"\x00" or key >= end):
                     sig = "range-count-bounds-unchecked"
+                elif "c" in flags and rev > 0:
+                    sig = "range-count-revision-ignored" if got_count == ref.range(key, end, committed, 0, True)[1] else "range-count"
                 if not hit(i, "etcd prescribes count=%d (all keys of the range at revision %d)" % (count, R), sig):
                     break
         elif t[0] == "watch":
-            watches[t[1]] = {"pfx": unhx(t[2]), "start": int(t[4]), "seen": [], "refused": False}
+            watches[t[1]] = {"pfx": unhx(t[2]), "start": int(t[4]), "seen": [], "refused": False, "end": unhx(t[3])}
         elif t[0] == "wevents":
             w = watches.get(t[1])
             o = out.split()
             if w is None or len(o) < 5:
+                continue
+            if w["start"] < 0:
+                # range-stream shape (watcher.List): its data is not judged here; WITHOUT key or range_end it must be
+                # cancelled at once and nothing streamed (before /repo 5b8c053 it reached ListByStream unvalidated)
+                if (not w["pfx"] or not w["end"]) and not (o[2] == "-" and o[3] == "canceled=1"):
+                    hit(i, "a watch-create in range-stream shape (start revision %d) without %s was not refused: it must be cancelled at once, "
+                           "nothing may be streamed (on a multi-region TiKV engine the unvalidated request crashes the process)"
+                        % (w["start"], "key" if not w["pfx"] else "range_end"), "range-stream-unbounded-accepted")
+                    break
                 continue
             if o[2] != "-":
                 for e in o[2].split(","):
@@ -772,6 +825,7 @@ class Shadow:
         self.live = {}      # key -> mod
         self.old = {}       # key -> list of earlier mods
         self.first_event = None
+        self.snaps = {init: []}   # revision -> sorted live keys at that revision
 
     def run(self, t):
         """predict a recognised transaction of a supported shape"""
@@ -799,7 +853,14 @@ class Shadow:
                 self.live.pop(k, None)
             if self.first_event is None:
                 self.first_event = rev
+        self.snaps[rev] = sorted(self.live)
         return ok
+
+    def live_at(self, rev):
+        """sorted live keys at revision `rev` (0 = now)"""
+        if rev == 0:
+            rev = self.dealt
+        return self.snaps[max(x for x in self.snaps if x <= rev)]
 
 
 def pick_exp(r, sh, k, allow_zero=True):
@@ -826,6 +887,10 @@ def gen_write(r, sh, keys):
     else:
         kind = "create" if x < 0.5 else ("update" if x < 0.7 else ("gdelete" if x < 0.85 else "udelete"))
     v = r.choice(GOOD_VALUES)
+    if kind in ("create", "update") and r.random() < 0.06:
+        # a write WITHOUT A VALUE: refused before a revision is dealt (the prediction is not advanced)
+        t = t_create(k, b"") if kind == "create" else t_update(k, b"", pick_exp(r, sh, k))
+        return [render_txn(t), "rev"]
     if kind == "create":
         t = t_create(k, v, lease=r.choice([0, 0, 0, 30]))
     elif kind == "update":
@@ -858,10 +923,101 @@ def gen_read(r, sh, keys, bounds):
         b = b"\x00"                                  # etcd's "from key"
     if r.random() < 0.3:
         a, b = PREFIX + b"/", PREFIX + b"0"
+    if y <= 0.95:
+        a, b = hist.succ_bounds(r, keys, a, b)       # one in four: a continued page / a range ending just after a key
     if x < 0.85:
         lim = r.randint(1, len(keys) + 1) if r.random() < 0.6 else 0
         return render_range(a, b, limit=lim, rev=rev)
-    return render_range(a, b, flags="c")             # count_only as Kubernetes issues it (current revision)
+    # count_only as Kubernetes issues it (current revision), and at an explicit revision (the count of THAT revision)
+    return render_range(a, b, rev=r.choice([0, rev]), flags="c")
+
+
+def gen_pages(r, sh, rev=0, n=None, lo=None, hi=None):
+    """a client paging through [lo, hi) with page size n: range with limit n, then continue from lastKey+\x00 while the
+    page says more (the start keys are computed on raw keys from the predicted snapshot), then the unpaginated range and
+    its count: the concatenation of the pages must be the unpaginated list — no key twice, none missing"""
+    lo, hi = lo or PREFIX + b"/", hi or PREFIX + b"0"
+    n = n or r.randint(1, 3)
+    if rev == MAGIC:
+        rev = 0
+    lines = [render_range(st, hi, limit=n, rev=rev) for st in hist.page_starts(sh.live_at(rev), lo, hi, n)]
+    return lines + [render_range(lo, hi, rev=rev), render_range(lo, hi, rev=rev, flags="c")]
+
+
+def region_opt(keys):
+    """`regions=` for a tikv engine split into several regions at internal keys of the key pool"""
+    import struct
+    ks = sorted(keys)[1:3]
+    return " regions=" + ",".join(hx(b"\x57\xfb\x80\x8b" + k + b"$" + struct.pack(">Q", rv)) for k, rv in zip(ks, (0, INIT + 3)))
+
+
+def bounds_case(seed, i, engine):
+    """The four repairs of /repo 146f0bb, 5f2847c, f2a549c, 5b8c053, deterministically on every engine (tikv: split into
+    regions): paging with every page size through prefix-related keys (a key, its extension, its sibling) at the current
+    and at an old revision; the single-key range [k, k\x00) of live / deleted / missing keys; counts over such bounds;
+    count_only at explicit revisions — current, old, and (after the node's own compaction) below the floor, where it must
+    be refused like the range read; writes without a value, which must be refused alike and change nothing; the
+    range-stream watch-create without range_end / key, which must be cancelled (and the process must live on)."""
+    r = rng_for(seed, "c16/b/%d" % i)
+    keys = [b"/r/a", b"/r/a/b", b"/r/a0", b"/r/a\xff", b"/r/b", b"/r/b/c", b"/r/c"]
+    r.shuffle(keys)
+    keys = sorted(keys[:r.randint(4, 7)])
+    sh = Shadow()
+    cfg = cfg_line(engine) + (region_opt(keys) if engine == "tikv" else "")
+    lines = [cfg]
+    for _ in range(12):
+        lines += gen_write_plain(r, sh, keys)
+    old = sh.dealt
+    for _ in range(8):
+        lines += gen_write_plain(r, sh, keys)
+    lo, hi = PREFIX + b"/", PREFIX + b"0"
+    S = hist.succ
+    for rev in (0, old):
+        for n in (1, 2, 3):
+            lines += gen_pages(r, sh, rev=rev, n=n)
+        for k in r.sample(keys, 3) + [b"/r/zz"]:
+            lines += [render_range(k, S(k), rev=rev), render_range(k, S(k), rev=rev, flags="c"),      # exactly k (or nothing)
+                      render_range(S(k), hi, rev=rev), render_range(S(k), hi, rev=rev, flags="c"),    # everything after k, not k
+                      render_range(lo, S(k), rev=rev, limit=1), render_range(lo, S(k), rev=rev, flags="c")]   # up to and including k
+        a, b = sorted(r.sample(keys, 2))
+        lines += [render_range(S(a), S(b), rev=rev), render_range(S(a), S(b), rev=rev, flags="c")]
+    # count_only at explicit revisions: every revision of the history once
+    for rev in r.sample(range(INIT + 1, sh.dealt + 1), 6) + [sh.dealt]:
+        if rev != MAGIC:
+            lines.append(render_range(lo, hi, rev=rev, flags="c"))
+    # writes without a value
+    live = [k for k in keys if k in sh.live]
+    dead = [k for k in keys if k not in sh.live] + [b"/r/zz"]
+    for k in dead[:2]:
+        lines += [render_txn(t_create(k, b"")), "rev", render_txn(t_update(k, b"", 0)), "rev", render_range(k)]
+    for k in live[:2]:
+        lines += [render_txn(t_update(k, b"", sh.live[k])), "rev", render_txn(t_create(k, b"", lease=5)), "rev", render_range(k)]
+    lines += [FULL]
+    # the node's own compaction raises the floor: count_only below it is refused like the range read
+    F = r.randint(old, sh.dealt)
+    lines += ["bcompact %d" % F]
+    for rev in (F - 1, max(INIT + 1, F - 3), F, sh.dealt):
+        if rev != MAGIC:
+            lines += [render_range(lo, hi, rev=rev, flags="c"), render_range(lo, hi, rev=rev)]
+    lines += gen_pages(r, sh, rev=0, n=2) + gen_pages(r, sh, rev=F, n=1)
+    # range-stream shape without range_end / without key
+    lines += ["watch s1 %s - %d" % (hx(lo), -sh.dealt), "wevents s1", "watch s2 - %s %d" % (hx(hi), -sh.dealt), "wevents s2"]
+    lines += gen_write_plain(r, sh, keys) + [FULL]
+    return EtcdCase("etcd", lines, {"engine": engine, "kind": "bounds"})
+
+
+def gen_write_plain(r, sh, keys):
+    """a write of one of the four shapes with a value (mostly succeeding)"""
+    k = r.choice(keys)
+    v = r.choice([b"v1", b"v2", b"v3"])
+    cur = sh.live.get(k)
+    x = r.random()
+    if cur is None:
+        t = t_create(k, v) if x < 0.8 else (t_update(k, v, 0) if x < 0.9 else t_udelete(k))
+    else:
+        t = t_update(k, v, cur) if x < 0.55 else (t_gdelete(k, cur) if x < 0.8 else (t_udelete(k) if x < 0.9 else t_create(k, v)))
+    sh.run(t)
+    return [render_txn(t), "rev"]
 
 
 def gen_history(seed, i, engine, n_ops):
@@ -893,6 +1049,7 @@ def gen_history(seed, i, engine, n_ops):
             lines.append("watch w2 %s - %d" % (hx(k[:r.randint(3, len(k))]), r.randint(sh.first_event, sh.dealt + 1)))
     for _ in range(n_ops // 3):
         lines.append(gen_read(r, sh, keys, bounds))
+    lines += gen_pages(r, sh, rev=r.choice([0, 0, r.randint(INIT + 1, sh.dealt)]))
     lines.append("wevents w1")
     if late:
         lines.append("wevents w2")
@@ -1054,10 +1211,29 @@ def witness_cases(engine):
     # theorem limited_count_wrong
     w["limited_count"] = pre + [render_range(PREFIX + b"/", PREFIX + b"0", limit=1), render_range(PREFIX + b"/", PREFIX + b"0", limit=2),
                                 render_range(PREFIX + b"/", PREFIX + b"0", limit=3)]
-    # correspondence-only observations (outside the property's quantifier, see DESIGN-C16.md)
-    w["obs_count_only_revision"] = pre + [render_txn(t_gdelete(A, INIT + 1)), "rev",
-                                          render_range(PREFIX + b"/", PREFIX + b"0", rev=INIT + 3, flags="c"),
-                                          render_range(PREFIX + b"/", PREFIX + b"0", flags="c")]
+    # theorem count_only_counts_revision (formerly the observation count_only_ignores_revision)
+    w["count_only_counts_revision"] = pre + [render_txn(t_gdelete(A, INIT + 1)), "rev",
+                                             render_range(PREFIX + b"/", PREFIX + b"0", rev=INIT + 3, flags="c"),
+                                             render_range(PREFIX + b"/", PREFIX + b"0", rev=INIT + 3),
+                                             render_range(PREFIX + b"/", PREFIX + b"0", flags="c"),
+                                             "bcompact %d" % (INIT + 4),
+                                             render_range(PREFIX + b"/", PREFIX + b"0", rev=INIT + 3, flags="c"),
+                                             render_range(PREFIX + b"/", PREFIX + b"0", rev=INIT + 3),
+                                             render_range(PREFIX + b"/", PREFIX + b"0", flags="c")]
+    # theorem pagination_witness
+    S = hist.succ
+    w["pagination_witness"] = pre + [render_range(PREFIX + b"/", HI, limit=1), render_range(S(A), HI, limit=1), render_range(S(B), HI, limit=1),
+                                     render_range(A, S(A)), render_range(S(A), HI, flags="c"), render_range(PREFIX + b"/", S(B), flags="c"),
+                                     render_range(S(A), HI, rev=INIT + 2, flags="c")]
+    # theorems empty_value_refused / empty_value_refused_k8s
+    w["empty_value_refused"] = pre + [render_txn(t_create(D, b"")), "rev", FULL, render_txn(t_create(A, b"")), "rev", FULL,
+                                      render_txn(t_update(A, b"", INIT + 1)), "rev", FULL, render_range(A),
+                                      render_txn(t_update(D, b"", 0)), "rev", FULL, render_range(D),
+                                      render_txn(t_create(D, V9)), "rev", FULL]
+    # theorem range_stream_needs_borders
+    w["range_stream_needs_borders"] = pre + ["watch s1 %s - %d" % (hx(PREFIX + b"/"), -(INIT + 3)), "wevents s1",
+                                             "watch s2 - %s %d" % (hx(HI), -(INIT + 3)), "wevents s2",
+                                             render_txn(t_create(D, V9)), "rev", FULL]
     w["obs_range_options"] = pre + [render_range(PREFIX + b"/", PREFIX + b"0", flags="k"),
                                     render_range(PREFIX + b"/", PREFIX + b"0", extra=" sort=2:0"),
                                     render_range(A, flags="c"), render_range(A, flags="k"),
@@ -1068,6 +1244,10 @@ def witness_cases(engine):
                                     render_range(PREFIX + b"/", PREFIX + b"0", limit=-2),
                                     "put %s %s" % (hx(A), hx(V1)), "delrange %s -" % hx(A), "compact 5",
                                     render_txn(txn([cmp_(COMPACT_KEY, 0, "ver")], [put(COMPACT_KEY, b"1")], [rng(COMPACT_KEY)])), "rev", FULL]
+    if engine == "tikv":
+        # the same on a tikv engine split into three regions (at the index keys of /r/b and /r/c): before /repo 5b8c053 the
+        # unvalidated request crashed the process there; the follow-up transaction and range show it is still serving
+        w["range_stream_needs_borders_regions"] = [pre[0] + region_opt([A, B, C_, D][0:3] + [D])] + w["range_stream_needs_borders"][1:]
     cases = [EtcdCase("etcd", lines, {"engine": engine, "kind": "witness", "witness": name}) for name, lines in w.items()]
     # the magic revision: a legal List at revision 1888 is answered with partition borders
     # theorem magic_revision_hijacked (same three creates, from revision 1885)
@@ -1237,8 +1417,10 @@ def check(rep, tier, seed):
         wit += inject_cases("badger") + inject_cases("tikv")
     for e in ENGINES:
         wit += witness_cases(e)
+    wit += [bounds_case(seed, i, ENGINES[i % len(ENGINES)]) for i in range(6 if tier == "quick" else 60)]
     # the cheap, most telling scripts first; then batches — the run stops at the first confirmed violation
     # (a tree on which model and implementation differ must not cost one timeout per remaining script)
+    wit.sort(key=lambda c: 0 if c.meta.get("witness") == "range_stream_needs_borders_regions" else 1)   # (a crash says most)
     cases = wit + cases
     shapes = {}
     found = False
@@ -1300,8 +1482,11 @@ def check(rep, tier, seed):
         "lost to a concurrent delete carries the key-value it had read: recorded in coverage.observations, not condemned",
         "expected revisions correct / stale / zero; an expectation above the next revision or a negative one may be refused with a drift error (a refusal, not a wrong answer)",
         "reads at revisions <= the committed one; a refusal (error) of inverted bounds or range_end=\\0 is not counted as a wrong answer",
+        "range bounds: keys over the alphabet and their successors key+\\x00 (continue key of a paginated list, end of a single-key range); "
+        "count_only at the current or an explicit revision; a range / count below the compaction floor must be refused; a write without a "
+        "value must be refused (consuming no revision); a range-stream watch-create without key or range_end must be cancelled",
         "outside the quantifier, checked for model/implementation correspondence only: keys_only, sort order, min/max revision filters, "
-        "count_only at an explicit revision, the partition-listing magic revision 1888, header revisions of failed transactions, "
+        "the partition-listing magic revision 1888, header revisions of failed transactions, "
         "create_revision / version / lease of returned key-values, the number and kind of response ops",
         "a transaction answered 'uncertain' because the server's own 1 s deadline expired under load ends the judgement of its script (counted in scripts_cut_short_by_rpc_deadline)",
         "a watch refused at registration (event cache does not reach back to the start revision) is a forced relist, not a wrong event stream",
